@@ -138,11 +138,22 @@ EXTRA2 = {
  'C19': 'Also: column-name line and data columns built from one ordered key list; lower/upper detection-limit blocks use only their own names.',
  'C20': 'Also: both sweeps of pack2d use the same integer conversion; VAR1 and EXP handed to unpack are indexed alike; no function reads and fills a mutable default argument.',
 }
-NA = {
- 'C03': 'equality of computed arrays with numpy reductions for every shape/reducer/mask: no code-shape clause is a necessary condition (DESIGN 5)',
- 'C14': 'quantifies over every byte offset of a cut; outcome decided at run time by file-size arithmetic and numpy.memmap validation (DESIGN 5)',
- 'C17': 'partition of unity / linear exactness / mass conservation are algebraic laws of floating-point matrices computed by scipy/numpy (DESIGN 5)',
-}
+NA = {}
+
+CLAIMED.update({
+ 'C03': ('ast checks of applyAlongDimensions: per-variable axis lookup, keepdims/axis agreement of both call forms, measured output lengths, mask-keeping value path, exhaustive store, wrapper delegation',
+         'Decides structural necessary conditions only: the axis is the position of the dimension in the current variable; named reducers keep the axis (keepdims=True) and work on the running value; '
+         'new dimension lengths are measured with the same function on the coordinate; no mask-dropping conversion; every variable is stored; the IOAPI wrapper delegates. '
+         'Not decided: equality of values with the numpy reduction for every shape, reducer and mask; commutation. Trusted: numpy reducer/apply_along_axis semantics.', '4/C03'),
+ 'C14': ('dtype-literal evaluator + size algebra on the file-size arithmetic of the memmap readers; guard/raise pairing; rounding lint',
+         'Decides structural necessary conditions only: the divisor of the step count equals the item size of the mapped block type (uamiv, lateral_boundary: polynomial identity in nx, ny, nz, nspec); '
+         'counts come from floor division or from a true division with an integrality test that raises; nothing rounds up; bpch maps exactly the counted blocks; the wind step size includes the dummy record. '
+         'Not decided: the outcome at every byte offset of a cut (numpy.memmap / reshape validation at run time).', '4/C14'),
+ 'C17': ('ast shape checks of the weight construction and of every application (broadcast axis vs summed axis), same-weights rule for the normaliser, overlap-fraction form',
+         'Decides structural necessary conditions only: weights = linear interpolant of identity(xs.size) at the targets, clipped at 0 then divided by their sum over the source axis; six applications contract the '
+         'source axis; the mass-conserving form divides by the sum of the weights it multiplies with; overlap fractions are clipped top minus clipped bottom at [source, target]. '
+         'Not decided: linear exactness and conservation for every grid (floating-point algebra). Trusted: scipy interp1d, numpy broadcasting.', '4/C17'),
+})
 PENDING = 'static checker for this property is not built yet in this round (see DESIGN 10); not claimed until it is'
 ALL = ['C%02d' % i for i in range(1, 21)]
 
